@@ -395,3 +395,10 @@ def run(chk):
     from . import guardrules
     ng_ = guardrules.check(chk, c, 'C07-G', ['__init__.check_encoding_chars', 'parser._split_msh'])
     chk.floor('refusal predicates compared (C07-G)', ng_, 1)
+
+    chk.rule('C07-D', 'decision structure of the functions this property is anchored in: every effect statement (store, call, return, '
+                   'raise) runs under the same combinations of the function\'s elementary tests as in the reviewed tree, and none '
+                   'was deleted (reference/decisions.json; compared by meaning, rewritten functions are not compared)')
+    from . import guardrules as _gr
+    nd2_ = _gr.check_decisions(chk, c, 'C07-D', lambda fq_: fq_.startswith(('parser._split_msh', 'parser.get_message_', '__init__.check_encoding_chars', '__init__.get_default_encoding_chars', '__init__.set_default_encoding_chars')))
+    chk.floor('functions compared with the decision reference (C07-D)', nd2_, 1)
